@@ -42,3 +42,154 @@ func After(d time.Duration) <-chan time.Time {
 	s.AddTimer(at, fmt.Sprintf("After(%v)", d), func() { s.DeliverTimer(ch, at) })
 	return ch
 }
+
+// Timer mirrors time.Timer (NewTimer and AfterFunc) on the model clock.
+type Timer struct {
+	C     <-chan time.Time
+	ch    chan time.Time
+	f     func()
+	h     interface{ Cancel() }
+	armed bool
+	rt    *time.Timer
+}
+
+func (t *Timer) arm(s *sched.Sched, d time.Duration) {
+	if d < 0 {
+		d = 0
+	}
+	at := s.Now().Add(d)
+	t.armed = true
+	what := fmt.Sprintf("Timer(%v)", d)
+	if t.f != nil {
+		what = fmt.Sprintf("AfterFunc(%v)", d)
+	}
+	t.h = s.AddTimer(at, what, func() {
+		t.armed = false
+		if t.f != nil {
+			s.Spawn("AfterFunc", t.f)
+		} else {
+			s.DeliverTimer(t.ch, at)
+		}
+	})
+}
+
+// NewTimer is time.NewTimer.
+func NewTimer(d time.Duration) *Timer {
+	s := sched.Cur()
+	if s == nil {
+		rt := time.NewTimer(d)
+		return &Timer{C: rt.C, rt: rt}
+	}
+	ch := make(chan time.Time, 1)
+	t := &Timer{C: ch, ch: ch}
+	t.arm(s, d)
+	return t
+}
+
+// AfterFunc is time.AfterFunc: f runs on its own (scheduled) thread.
+func AfterFunc(d time.Duration, f func()) *Timer {
+	s := sched.Cur()
+	if s == nil {
+		return &Timer{rt: time.AfterFunc(d, f)}
+	}
+	t := &Timer{f: f}
+	t.arm(s, d)
+	return t
+}
+
+// Stop is (*time.Timer).Stop.
+func (t *Timer) Stop() bool {
+	if t.rt != nil {
+		return t.rt.Stop()
+	}
+	was := t.armed
+	if was {
+		t.h.Cancel()
+		t.armed = false
+	}
+	return was
+}
+
+// Reset is (*time.Timer).Reset.
+func (t *Timer) Reset(d time.Duration) bool {
+	if t.rt != nil {
+		return t.rt.Reset(d)
+	}
+	was := t.Stop()
+	if s := sched.Cur(); s != nil {
+		t.arm(s, d)
+	}
+	return was
+}
+
+// Ticker mirrors time.Ticker on the model clock.
+type Ticker struct {
+	C       <-chan time.Time
+	ch      chan time.Time
+	d       time.Duration
+	h       interface{ Cancel() }
+	stopped bool
+	rt      *time.Ticker
+}
+
+func (t *Ticker) arm(s *sched.Sched) {
+	at := s.Now().Add(t.d)
+	t.h = s.AddTimer(at, fmt.Sprintf("Ticker(%v)", t.d), func() {
+		if t.stopped {
+			return
+		}
+		s.DeliverTimer(t.ch, at) // a tick is dropped when the previous one was not taken
+		t.arm(s)
+	})
+}
+
+// NewTicker is time.NewTicker.
+func NewTicker(d time.Duration) *Ticker {
+	if d <= 0 {
+		panic("non-positive interval for NewTicker")
+	}
+	s := sched.Cur()
+	if s == nil {
+		rt := time.NewTicker(d)
+		return &Ticker{C: rt.C, rt: rt}
+	}
+	ch := make(chan time.Time, 1)
+	t := &Ticker{C: ch, ch: ch, d: d}
+	t.arm(s)
+	return t
+}
+
+// Tick is time.Tick.
+func Tick(d time.Duration) <-chan time.Time {
+	if d <= 0 {
+		return nil
+	}
+	return NewTicker(d).C
+}
+
+// Stop is (*time.Ticker).Stop.
+func (t *Ticker) Stop() {
+	if t.rt != nil {
+		t.rt.Stop()
+		return
+	}
+	t.stopped = true
+	if t.h != nil {
+		t.h.Cancel()
+	}
+}
+
+// Reset is (*time.Ticker).Reset.
+func (t *Ticker) Reset(d time.Duration) {
+	if t.rt != nil {
+		t.rt.Reset(d)
+		return
+	}
+	if t.h != nil {
+		t.h.Cancel()
+	}
+	t.d, t.stopped = d, false
+	if s := sched.Cur(); s != nil {
+		t.arm(s)
+	}
+}
